@@ -43,6 +43,9 @@ def main():
         if prop in ("C11", "C12", "C16"):
             import props_streams
             return props_streams.run(prop, tier)
+        if prop == "C20":
+            import props_hash
+            return props_hash.run(prop, tier)
         print("unknown property", prop)
         return 2
     except (common.MachineryError, tlcrun.TLCError) as e:
